@@ -258,21 +258,38 @@ def defStr (d : Def) : String :=
 
 def rootStr (r : Root) : String := s!"{linStr r.body};{boundStr true r.lb};{boundStr false r.ub}"
 
+/-- which clauses of `ConvOut.shortcut` fire (diagnostic) -/
+def shortcutWhy (o : ConvOut) (linear : Bool) : String :=
+  let nref := nRefs o.defs o.fixTrue o.rootsD o.obj
+  ",".intercalate (
+    (if o.defs.any (shortcutDef o.B0 o.defs) then ["prepro"] else []) ++
+    (if o.blocks.any (·.unmodelled) then ["unmodelled"] else []) ++
+    (if o.defs.any (timingShortcut o.facts nref) then ["timing"] else []) ++
+    (if linear && constShortcut o then ["constmap"] else []) ++
+    (if removedRef o then ["removedref"] else []) ++
+    (if o.defs.any (fun d => match d.f with | .condLin .eq [(_, v)] _ => (o.B0 v).isInt | _ => false) then ["uenc"] else []) ++
+    (if o.defs.any (fun d => match d.f with | .affine [] _ => false | .condLin .eq [(_, _)] _ => false | f => (resBnd o.B0 f).isFixed) then ["fixedres"] else []))
+
+/-- answer of the `convert` op.  Printing conventions (not part of the theorems): a removed definition (`Block.removed`: And fixed
+true / Or fixed false, marked unused) is shown the way the real converter leaves it — no rows, its result variable with the bounds
+`0..0` of `FixUnusedDefinedVars` and, in `|D|`, as a constant variable of value 0; in the theorems its variable keeps the value 1
+resp. 0 of the propagation and occurs in no delivered row. -/
 def convOutStr (m : NLModel) (o : ConvOut) (cfg : Cfg) : String :=
   let linear := cfg.acc == .linear
+  if o.infeasible then "refusal infeasible" else
   match o.refusal with
   | some r => s!"refusal {r.toString}"
   | none =>
+    let removed := (o.blocks.filter (·.removed)).map (·.d.res)
     let vs := (List.range' o.n0 (o.M - o.n0)).map fun v =>
       let i := o.B v
-      let i := if o.fixTrue.contains v then { i with lb := some 1 } else i
+      let i := if removed.contains v then { i with lb := some 0, ub := some 0 } else i
       s!"{v}:{viStr i}"
-    let rows := o.blocks.flatMap (·.cons) ++ (o.roots.filter (fun r => !(r.lb == some 1 && r.ub == none &&
-        (match r.body with | [(_, v)] => o.fixTrue.contains v | _ => false)))).map
-          (fun r => Con.linRange r.body r.lb r.ub)
-    s!"conv N={o.N} M={o.M} shortcut={if o.shortcut linear then 1 else 0} infragment={if m.vok && o.checksSem && (!linear || o.checksLin cfg) then 1 else 0} checks={if o.checks m then 1 else 0}" ++
+    let rows := o.blocks.flatMap (·.cons) ++ o.rootsD.map (fun r => Con.linRange r.body r.lb r.ub)
+    s!"conv N={o.N} M={o.M} shortcut={if o.shortcut linear then 1 else 0} infragment={if m.vok && o.checksSem && (!linear || o.checksLin cfg) then 1 else 0} checks={if o.checks m then 1 else 0} why={shortcutWhy o linear}" ++
       " |V| " ++ ";".intercalate vs ++
-      " |D| " ++ "|".intercalate (o.defs.map defStr) ++
+      " |D| " ++ "|".intercalate (o.defs.map (fun d =>
+          if removed.contains d.res then s!"{d.res};{d.ctx.toString};Const;0" else defStr d)) ++
       " |R| " ++ "|".intercalate (o.roots.map rootStr) ++
       " |O| " ++ (match o.obj with
                   | some ob => (if ob.sense == .max then "max;" else "min;") ++ linStr ob.lin
